@@ -114,6 +114,14 @@ def U512.val (a : U512) : Nat :=
   a.w0 + W * a.w1 + W * W * a.w2 + W * W * W * a.w3 + W * W * W * W * a.w4 + W * W * W * W * W * a.w5
     + W * W * W * W * W * W * a.w6 + W * W * W * W * W * W * W * a.w7
 
+/-- every word is a 64-bit word (the hypothesis of the theorems; `hkArith` checks it on its arguments) -/
+def U128.wf (a : U128) : Prop := a.w0 < W ∧ a.w1 < W
+def U192.wf (a : U192) : Prop := a.w0 < W ∧ a.w1 < W ∧ a.w2 < W
+def U256.wf (a : U256) : Prop := a.w0 < W ∧ a.w1 < W ∧ a.w2 < W ∧ a.w3 < W
+def U384.wf (a : U384) : Prop := a.w0 < W ∧ a.w1 < W ∧ a.w2 < W ∧ a.w3 < W ∧ a.w4 < W ∧ a.w5 < W
+def U512.wf (a : U512) : Prop :=
+  a.w0 < W ∧ a.w1 < W ∧ a.w2 < W ∧ a.w3 < W ∧ a.w4 < W ∧ a.w5 < W ∧ a.w6 < W ∧ a.w7 < W
+
 /-! ### Logical shifts (bid_internal.rs 849–901) -/
 
 /-- `__shr_128(A, k)` (line 850).  No guard on `k` in the routine: the three shifts use `k mod 64` and
@@ -507,61 +515,72 @@ end AH
 /-! ### The judge's interface -/
 
 open AH in
-/-- What the code-shaped models predict for `hk_<name>` of the hook `verif_hooks::helper`, argument words `args`
-(each must be below 2^64, and there must be exactly as many as the hook's `need(n)` asks — otherwise `none`, as for
-names that are not in this group).  The result words are in the hook's order; no routine of the group reads the rounding
-mode or touches the status word, so the outgoing status word is `flagsIn`.
+/-- The hook `verif_hooks::helper` for the names of this group, on argument words that are already known to be
+64-bit words: the routine applied to the arguments in the hook's order, result words in the hook's order.
+`none` for a name outside the group or a wrong number of arguments (the hook's `need(n)`). -/
+def hkArithWords (name : String) (args : List Nat) : Option (List Nat) :=
+  let ok (ws : List Nat) : Option (List Nat) := some ws
+  match name, args with
+  | "shr_128", [a0, a1, k] => ok (shr128 ⟨a0, a1⟩ (i32OfWord k)).words
+  | "shr_256", [a0, a1, a2, a3, k] => ok (shr256 ⟨a0, a1, a2, a3⟩ (i32OfWord k)).words
+  | "shr_128_long", [a0, a1, k] => ok (shr128Long ⟨a0, a1⟩ (i32OfWord k)).words
+  | "shl_128_long", [a0, a1, k] => ok (shl128Long ⟨a0, a1⟩ (i32OfWord k)).words
+  | "add_128_64", [a0, a1, b] => ok (add128_64 ⟨a0, a1⟩ b).words
+  | "sub_128_64", [a0, a1, b] => ok (sub128_64 ⟨a0, a1⟩ b).words
+  | "add_128_128", [a0, a1, b0, b1] => ok (add128_128 ⟨a0, a1⟩ ⟨b0, b1⟩).words
+  | "sub_128_128", [a0, a1, b0, b1] => ok (sub128_128 ⟨a0, a1⟩ ⟨b0, b1⟩).words
+  | "sub_256_128_to_256", [a0, a1, a2, a3, b0, b1] => ok (sub256_128to256 ⟨a0, a1, a2, a3⟩ ⟨b0, b1⟩).words
+  | "add_carry_out", [x, y] => ok [(addCarryOut x y).1, (addCarryOut x y).2]
+  | "add_carry_in_out", [x, y, ci] => ok [(addCarryInOut x y ci).1, (addCarryInOut x y ci).2]
+  | "sub_borrow_out", [x, y] => ok [(subBorrowOut x y).1, (subBorrowOut x y).2]
+  | "sub_borrow_in_out", [x, y, ci] => ok [(subBorrowInOut x y ci).1, (subBorrowInOut x y ci).2]
+  | "mul_64x64_to_64", [x, y] => ok [mul64x64to64 x y]
+  | "mul_64x64_to_128", [x, y] => ok (mul64x64to128 x y).words
+  | "mul_64x64_to_128_fast", [x, y] => ok (mul64x64to128Fast x y).words
+  | "mul_64x64_to_128_full", [x, y] => ok (mul64x64to128Full x y).words
+  | "mul_64x64_to_128MACH", [x, y] => ok (mul64x64to128MACH x y).words
+  | "mul_64x64_to_128HIGH", [x, y] => ok [mul64x64to128HIGH x y]
+  | "mul_128x128_high", [a0, a1, b0, b1] => ok (mul128x128High ⟨a0, a1⟩ ⟨b0, b1⟩).words
+  | "mul_128x128_full", [a0, a1, b0, b1] =>
+      ok ((mul128x128Full ⟨a0, a1⟩ ⟨b0, b1⟩).1.words ++ (mul128x128Full ⟨a0, a1⟩ ⟨b0, b1⟩).2.words)   -- Qh then Ql
+  | "mul_128x128_low", [a0, a1, b0, b1] => ok (mul128x128Low ⟨a0, a1⟩ ⟨b0, b1⟩).words
+  | "mul_64x128_low", [a, b0, b1] => ok (mul64x128Low a ⟨b0, b1⟩).words
+  | "mul_64x128_full", [a, b0, b1] =>
+      ok ((mul64x128Full a ⟨b0, b1⟩).1 :: (mul64x128Full a ⟨b0, b1⟩).2.words)                          -- Ph then Ql
+  | "mul_64x128_to_192", [a, b0, b1] => ok (mul64x128to_192 a ⟨b0, b1⟩).words
+  | "mul_64x128_to_256", [a, b0, b1] => ok (mul64x128to256 a ⟨b0, b1⟩).words
+  | "mul_64x128_to192", [a, b0, b1] => ok (mul64x128to192 a ⟨b0, b1⟩).words
+  | "mul_128x128_to_256", [a0, a1, b0, b1] => ok (mul128x128to256 ⟨a0, a1⟩ ⟨b0, b1⟩).words
+  | "mul_64x192_to_256", [a, b0, b1, b2] => ok (mul64x192to256 a ⟨b0, b1, b2⟩).words
+  | "mul_64x256_to_256", [a, b0, b1, b2, b3] => ok (mul64x256to256 a ⟨b0, b1, b2, b3⟩).words
+  | "mul_128x64_to_128", [a, b0, b1] => ok (mul128x64to128 a ⟨b0, b1⟩).words
+  | "mul_64x128_to_128", [a, b0, b1] => ok (mul64x128to128 a ⟨b0, b1⟩).words
+  | "mul_64x256_to_320", [a, b0, b1, b2, b3] => ok (mul64x256to320 a ⟨b0, b1, b2, b3⟩).words
+  | "mul_192x192_to_384", [a0, a1, a2, b0, b1, b2] => ok (mul192x192to384 ⟨a0, a1, a2⟩ ⟨b0, b1, b2⟩).words
+  | "sqr128_to_256", [a0, a1] => ok (sqr128to256 ⟨a0, a1⟩).words
+  | "mul_256x256_to_512", [a0, a1, a2, a3, b0, b1, b2, b3] =>
+      ok (mul256x256to512 ⟨a0, a1, a2, a3⟩ ⟨b0, b1, b2, b3⟩).words
+  | "mul_64x128_short", [a, b0, b1] => ok (mul64x128Short a ⟨b0, b1⟩).words
+  | "compare_gt_128", [a0, a1, b0, b1] => ok [b2w (compareGt128 ⟨a0, a1⟩ ⟨b0, b1⟩)]
+  | "compare_ge_128", [a0, a1, b0, b1] => ok [b2w (compareGe128 ⟨a0, a1⟩ ⟨b0, b1⟩)]
+  | "test_equal_128", [a0, a1, b0, b1] => ok [b2w (testEqual128 ⟨a0, a1⟩ ⟨b0, b1⟩)]
+  | _, _ => none
 
-The model claims to mirror the code on EVERY well-formed argument list: shift counts are the hook's `word as i32`
-with Rust's modulo-64 shift amounts, so also `k = 0`, `k ≥ 64` and negative counts are predicted (those are outside the
-domain on which the shift routines shift; the theorems say what the domain is). -/
+/-- What the code-shaped models predict for `hk_<name>` of the hook `verif_hooks::helper` (name without the `hk_`
+prefix), argument words `args`: `some (result words, outgoing status word)`.
+
+`none` exactly when: the name is not one of the 40 of this group, or the number of arguments is not the hook's
+`need(n)`, or some argument is not below 2^64.  On every other input the model claims to mirror the code — there is
+no excluded sub-domain: shift counts are the hook's `word as i32` with Rust's modulo-64 shift amounts, so `k = 0`,
+`k ≥ 64` and negative counts are predicted too (they are outside the domain on which the shift routines compute a
+shift; the theorems say what that domain is), and the multiplies that drop a carry by design (`_fast`,
+`__mul_128x128_high/_full`, `__mul_64x256_to_256`) are predicted with the carry dropped.
+
+No routine of the group takes a rounding mode (`mode` is ignored; the harness prints `-`) or touches the status
+word, so the outgoing status word is `flagsIn`. -/
 def hkArith (name : String) (_mode : Mode) (flagsIn : Nat) (args : List Nat) : Option (List Nat × Nat) :=
   if args.all (fun a => decide (a < 18446744073709551616)) then
-    let ok (ws : List Nat) : Option (List Nat × Nat) := some (ws, flagsIn)
-    match name, args with
-    | "shr_128", [a0, a1, k] => ok (shr128 ⟨a0, a1⟩ (i32OfWord k)).words
-    | "shr_256", [a0, a1, a2, a3, k] => ok (shr256 ⟨a0, a1, a2, a3⟩ (i32OfWord k)).words
-    | "shr_128_long", [a0, a1, k] => ok (shr128Long ⟨a0, a1⟩ (i32OfWord k)).words
-    | "shl_128_long", [a0, a1, k] => ok (shl128Long ⟨a0, a1⟩ (i32OfWord k)).words
-    | "add_128_64", [a0, a1, b] => ok (add128_64 ⟨a0, a1⟩ b).words
-    | "sub_128_64", [a0, a1, b] => ok (sub128_64 ⟨a0, a1⟩ b).words
-    | "add_128_128", [a0, a1, b0, b1] => ok (add128_128 ⟨a0, a1⟩ ⟨b0, b1⟩).words
-    | "sub_128_128", [a0, a1, b0, b1] => ok (sub128_128 ⟨a0, a1⟩ ⟨b0, b1⟩).words
-    | "sub_256_128_to_256", [a0, a1, a2, a3, b0, b1] => ok (sub256_128to256 ⟨a0, a1, a2, a3⟩ ⟨b0, b1⟩).words
-    | "add_carry_out", [x, y] => let r := addCarryOut x y; ok [r.1, r.2]
-    | "add_carry_in_out", [x, y, ci] => let r := addCarryInOut x y ci; ok [r.1, r.2]
-    | "sub_borrow_out", [x, y] => let r := subBorrowOut x y; ok [r.1, r.2]
-    | "sub_borrow_in_out", [x, y, ci] => let r := subBorrowInOut x y ci; ok [r.1, r.2]
-    | "mul_64x64_to_64", [x, y] => ok [mul64x64to64 x y]
-    | "mul_64x64_to_128", [x, y] => ok (mul64x64to128 x y).words
-    | "mul_64x64_to_128_fast", [x, y] => ok (mul64x64to128Fast x y).words
-    | "mul_64x64_to_128_full", [x, y] => ok (mul64x64to128Full x y).words
-    | "mul_64x64_to_128MACH", [x, y] => ok (mul64x64to128MACH x y).words
-    | "mul_64x64_to_128HIGH", [x, y] => ok [mul64x64to128HIGH x y]
-    | "mul_128x128_high", [a0, a1, b0, b1] => ok (mul128x128High ⟨a0, a1⟩ ⟨b0, b1⟩).words
-    | "mul_128x128_full", [a0, a1, b0, b1] =>
-        let r := mul128x128Full ⟨a0, a1⟩ ⟨b0, b1⟩; ok (r.1.words ++ r.2.words)
-    | "mul_128x128_low", [a0, a1, b0, b1] => ok (mul128x128Low ⟨a0, a1⟩ ⟨b0, b1⟩).words
-    | "mul_64x128_low", [a, b0, b1] => ok (mul64x128Low a ⟨b0, b1⟩).words
-    | "mul_64x128_full", [a, b0, b1] => let r := mul64x128Full a ⟨b0, b1⟩; ok (r.1 :: r.2.words)
-    | "mul_64x128_to_192", [a, b0, b1] => ok (mul64x128to_192 a ⟨b0, b1⟩).words
-    | "mul_64x128_to_256", [a, b0, b1] => ok (mul64x128to256 a ⟨b0, b1⟩).words
-    | "mul_64x128_to192", [a, b0, b1] => ok (mul64x128to192 a ⟨b0, b1⟩).words
-    | "mul_128x128_to_256", [a0, a1, b0, b1] => ok (mul128x128to256 ⟨a0, a1⟩ ⟨b0, b1⟩).words
-    | "mul_64x192_to_256", [a, b0, b1, b2] => ok (mul64x192to256 a ⟨b0, b1, b2⟩).words
-    | "mul_64x256_to_256", [a, b0, b1, b2, b3] => ok (mul64x256to256 a ⟨b0, b1, b2, b3⟩).words
-    | "mul_128x64_to_128", [a, b0, b1] => ok (mul128x64to128 a ⟨b0, b1⟩).words
-    | "mul_64x128_to_128", [a, b0, b1] => ok (mul64x128to128 a ⟨b0, b1⟩).words
-    | "mul_64x256_to_320", [a, b0, b1, b2, b3] => ok (mul64x256to320 a ⟨b0, b1, b2, b3⟩).words
-    | "mul_192x192_to_384", [a0, a1, a2, b0, b1, b2] => ok (mul192x192to384 ⟨a0, a1, a2⟩ ⟨b0, b1, b2⟩).words
-    | "sqr128_to_256", [a0, a1] => ok (sqr128to256 ⟨a0, a1⟩).words
-    | "mul_256x256_to_512", [a0, a1, a2, a3, b0, b1, b2, b3] =>
-        ok (mul256x256to512 ⟨a0, a1, a2, a3⟩ ⟨b0, b1, b2, b3⟩).words
-    | "mul_64x128_short", [a, b0, b1] => ok (mul64x128Short a ⟨b0, b1⟩).words
-    | "compare_gt_128", [a0, a1, b0, b1] => ok [b2w (compareGt128 ⟨a0, a1⟩ ⟨b0, b1⟩)]
-    | "compare_ge_128", [a0, a1, b0, b1] => ok [b2w (compareGe128 ⟨a0, a1⟩ ⟨b0, b1⟩)]
-    | "test_equal_128", [a0, a1, b0, b1] => ok [b2w (testEqual128 ⟨a0, a1⟩ ⟨b0, b1⟩)]
-    | _, _ => none
+    (hkArithWords name args).map (fun ws => (ws, flagsIn))
   else none
 
 end Dec
